@@ -538,6 +538,10 @@ struct Scenario<'a> {
     pools: Pools,
     /// the caller serial of a call that has just been aborted by its caller: the next request uses it for a new call
     reuse_next: Option<(usize, u32)>,
+    /// (connection, service cookie) pairs: the connection has asked for a subscription of some kind to that service
+    touched: Vec<(usize, Uuid)>,
+    force_ck: Option<Uuid>,
+    force_conn: Option<usize>,
     rng: Rng,
     out: &'a mut Out,
     serial: u32,
@@ -568,6 +572,9 @@ impl<'a> Scenario<'a> {
         self.pick_from(&p)
     }
     fn pick_svc(&mut self) -> (Ck, Option<usize>) {
+        if let Some(u) = self.force_ck.take() {
+            return (Ck::Known(u), None);
+        }
         let p: Vec<(Uuid, usize)> = self.pools.services.iter().map(|x| (x.0, x.1)).collect();
         self.pick_from(&p)
     }
@@ -795,6 +802,21 @@ impl<'a> Scenario<'a> {
                 self.out.count("call.serial_reused_after_abort");
             }
         }
+        // a connection that subscribed to something of a service comes back to it after the service is gone
+        self.force_ck = None;
+        self.force_conn = None;
+        if forced_serial.is_none() && self.rng.chance(1, 8) {
+            let live = self.live_conns();
+            let cands: Vec<(usize, Uuid)> = self.touched.iter().cloned().filter(|(c, u)| live.contains(c) && self.pools.stale.contains(u)).collect();
+            if !cands.is_empty() {
+                let (c, u) = *self.rng.pick(&cands);
+                self.force_ck = Some(u);
+                self.force_conn = Some(c);
+                anyc = c;
+                choice = *self.rng.pick(&[16u64, 16, 17, 19, 23, 24, 25]);
+                self.out.count("svc.revisit_stale_after_subscription");
+            }
+        }
         match choice {
             0 | 1 => {
                 let u = self.rng.below(n_uuid);
@@ -915,6 +937,7 @@ impl<'a> Scenario<'a> {
                 let (ck, _) = self.pick_svc();
                 let ev = self.rng.below(3) as u32;
                 let ser = if self.rng.chance(1, 30) { None } else { Some(s) };
+                if let Ck::Known(u) = ck { self.touched.push((anyc, u)); }
                 (anyc, Message::SubscribeEvent(SubscribeEvent { serial: ser, service_cookie: ServiceCookie(ck.uuid()), event: ev }),
                  format!("subscribeEvent {} {} {}", opt(&ser, |x| x.to_string()), ck.text(&mut self.names), ev))
             }
@@ -944,9 +967,10 @@ impl<'a> Scenario<'a> {
                 let (ck, _) = self.pick_svc();
                 // prefer a connection that may use these kinds
                 let ok: Vec<usize> = self.live_conns().into_iter().filter(|&c| self.sim.conns[c].version >= 18).collect();
-                let c = if !ok.is_empty() && !(wild && self.rng.chance(1, 5)) { *self.rng.pick(&ok) } else if wild { anyc } else {
+                let c = if let Some(fc) = self.force_conn.take() { fc } else if !ok.is_empty() && !(wild && self.rng.chance(1, 5)) { *self.rng.pick(&ok) } else if wild { anyc } else {
                     return (anyc, Message::Sync(Sync { serial: s }), format!("sync {}", s));
                 };
+                if let Ck::Known(u) = ck { self.touched.push((c, u)); }
                 match self.rng.below(5) {
                     0 => (c, Message::SubscribeService(SubscribeService { serial: s, service_cookie: ServiceCookie(ck.uuid()) }), format!("subscribeService {} {}", s, ck.text(&mut self.names))),
                     1 => (c, Message::UnsubscribeService(UnsubscribeService { service_cookie: ServiceCookie(ck.uuid()) }), format!("unsubscribeService {}", ck.text(&mut self.names))),
@@ -1341,6 +1365,9 @@ fn run_scenario(out: &mut Out, seed: u64, steps: u64, profile: &str) {
         names: Names::new(),
         pools: Pools::default(),
         reuse_next: None,
+        touched: Vec::new(),
+        force_ck: None,
+        force_conn: None,
         rng: Rng::new(seed),
         out,
         serial: 100,
